@@ -236,7 +236,36 @@ func c16Profiles(tier string) []Profile {
 	if tier == "thorough" {
 		big = []int{1023, 1024, 1025, 2047, 2048, 2049, 3071, 3072, 3073}
 	}
+	hd := 5
+	if tier == "thorough" {
+		hd = 6
+	}
+	hist := &SeqProfile{Name: "histories", Keys: [][]byte{kA, kB, kC}, Depth: hd, Init: initX,
+		Letters: func(w *harness.World) []Letter {
+			return []Letter{
+				{"Set(a)", func(w *harness.World) { w.SetItem("x", kA, 1, bs("v")) }},
+				{"Set(b)", func(w *harness.World) { w.SetItem("x", kB, 3, bs("v")) }},
+				{"Set(c)", func(w *harness.World) { w.SetItem("x", kC, 2, bs("v")) }},
+				{"Del(a)", func(w *harness.World) { w.Delete("x", kA) }},
+				{"Len", func(w *harness.World) { w.LenOp("x") }},
+				{"BlockEx", func(w *harness.World) { w.BlockVisit("x", false) }},
+				{"Random", func(w *harness.World) { w.RandomVisit("x") }},
+			}
+		},
+		Finish: func(w *harness.World) {
+			w.LenOp("x")
+			w.BlockVisit("x", true)
+			// a second, fresh store of the same process (recycled version handles)
+			aux := harness.NewWorld(harness.Monitors{}, 0, [][]byte{kA}, true)
+			aux.SetCollection("x", "nil")
+			aux.SetItem("x", kA, 1, bs("v"))
+			aux.LenOp("x")
+			w.Viols = append(w.Viols, aux.Viols...)
+			w.ObserveAll()
+		}}
 	return []Profile{
+		{Name: "histories", Exec: hist.Exec(), Budget: map[int]int{explore.ClassRand: 0},
+			Rule: fmt.Sprintf("every history of length <= %d over Set (3 keys), Delete, Len, VisitItemsAscendBlockEx and VisitItemsRandom, then Len and a block visit again and Len on a fresh store of the same process: the count must follow every mutation", hd)},
 		{Name: "small", Exec: c16Exec(small, true), Rule: "n in 0..5 x {memory, flushed+evicted, reopened} x 3 priority patterns x 2 key sets x {default, reverse comparator} x {Len, VisitItemsAscendBlockEx with nil/identity/reverse/rotate/every permutation x withValue, VisitItemsRandom with every answer sequence of the random source (every block permutation)}"},
 		{Name: "sweep", Exec: c16Exec(sweep, false), Budget: map[int]int{explore.ClassRand: 1}, Rule: fmt.Sprintf("n in 6..%d, same product; VisitItemsRandom with the default answer sequence and every single deviation from it", top)},
 		{Name: "big", Exec: c16Exec(big, false), Budget: map[int]int{explore.ClassRand: 0}, Rule: fmt.Sprintf("n in %v (not a multiple of the block length / above the maximum block count), same product, default random answers", big)},
